@@ -1044,12 +1044,26 @@ namespace bloch::compiler {
             14;  // binds tighter than binary ops, looser than postfix
     }            // namespace
 
+    namespace {
+        // '(f)(1)', '(p.m)()', '(xs)[0] = 4', '(a) = 3', '(this).x = 1': grouping parentheses
+        // around a callee, a receiver, a collection or an assignment target name the same thing
+        // as the bare form, and later stages look at the bare form.
+        std::unique_ptr<Expression> withoutGrouping(std::unique_ptr<Expression> e) {
+            while (auto* par = dynamic_cast<ParenthesizedExpression*>(e.get())) {
+                std::unique_ptr<Expression> inner = std::move(par->expression);
+                e = std::move(inner);
+            }
+            return e;
+        }
+    }  // namespace
+
     std::unique_ptr<Expression> Parser::parseAssignmentExpression() {
         // Right-associative assignment built on top of Pratt for the rest.
         std::unique_ptr<Expression> left = parsePrattExpression(0);
 
         if (match(TokenType::Equals)) {
             std::unique_ptr<Expression> value = parseAssignmentExpression();
+            left = withoutGrouping(std::move(left));
 
             if (auto varExpr = dynamic_cast<VariableExpression*>(left.get())) {
                 int line = varExpr->line;
@@ -1111,6 +1125,7 @@ namespace bloch::compiler {
                             } while (match(TokenType::Comma));
                         }
                         (void)expect(TokenType::RParen, "Expected ')' after arguments");
+                        left = withoutGrouping(std::move(left));
                         int calleeLine = left ? left->line : lparen.line;
                         int calleeColumn = left ? left->column : lparen.column;
                         std::unique_ptr<CallExpression> call =
@@ -1124,7 +1139,7 @@ namespace bloch::compiler {
                         const Token& lbr = tok;
                         std::unique_ptr<IndexExpression> idxExpr =
                             std::make_unique<IndexExpression>();
-                        idxExpr->collection = std::move(left);
+                        idxExpr->collection = withoutGrouping(std::move(left));
                         std::unique_ptr<Expression> indexNode = parseExpression();
 
                         // Constant negative index guard preserved from legacy parser.
@@ -1169,7 +1184,7 @@ namespace bloch::compiler {
                             expect(TokenType::Identifier, "Expected member name after '.'");
                         std::unique_ptr<MemberAccessExpression> member =
                             std::make_unique<MemberAccessExpression>();
-                        member->object = std::move(left);
+                        member->object = withoutGrouping(std::move(left));
                         member->member = memberTok.value;
                         member->line = dotTok.line;
                         member->column = dotTok.column;
